@@ -17,8 +17,8 @@ ID = "C13"
 LEVEL = "model_checking"
 EXHAUSTIVE = True
 CASE_TIMEOUT = 1800
-RULE = ("programs = mc.gen.c12_progs (every sequence of 1..3 statements over the "
-        "tier's alphabets, 4 over a smaller one); compute placement = {K: each "
+RULE = ("programs = mc.gen.c12_progs with the C13 alphabets (every sequence of 1..2 "
+        "statements over the tier's alphabet, 3 and 4 over smaller ones); compute placement = {K: each "
         "top-level statement ACCKernelsTrans accepts gets its own kernels region, "
         "KR: every maximal run of statements it accepts gets one kernels region, "
         "P: each top-level loop ACCLoopTrans accepts gets parallel+loop} (placements "
@@ -55,13 +55,13 @@ _PROGS = {}
 
 def _programs(tier):
     if tier not in _PROGS:
-        _PROGS[tier] = list(G.programs(tier))
+        _PROGS[tier] = list(G.programs(tier, G.ALPHABETS_C13))
     return _PROGS[tier]
 
 
 def bounds(tier):
     return {"alphabet_by_program_length": {str(k): list(v) for k, v in
-                                           G.ALPHABETS[tier].items()},
+                                           G.ALPHABETS_C13[tier].items()},
             "programs": len(_programs(tier)), "max_statements": 4,
             "placements": list(PLACEMENTS),
             "inputs": [G.input_key(i) for i in G.INPUTS], "array_extent": "0:4"}
@@ -79,13 +79,15 @@ def init_worker(tier):
     global _TIER
     _TIER = tier
     _programs(tier)
-    import atexit
     import os
-    import shutil
     from mc import runner
+    # PSyclone must never write into /verif: the workers run in a scratch
+    # directory that is removed straight away (a worker killed by the pool
+    # cannot clean up later); the transformations used here write no files,
+    # and if one ever tried to it would fail loudly in the unlinked directory.
     scratch = runner.scratch_dir("c13")
     os.chdir(scratch)
-    atexit.register(shutil.rmtree, scratch, True)
+    os.rmdir(scratch)
 
 
 # ---------------------------------------------------------------------------
@@ -288,6 +290,7 @@ def check_element(tree, progkey, placement, pidx, qidx, inputs, reference,
     needed = D.needed_clauses(need_in, need_out)
     # -- two-store run with PSyclone's clauses
     bad = []
+    absent = {}          # array -> first input with a not-present fault
     for inp in inputs:
         stats["runs"] += 1
         out = run_two_store(fresh, inp, clauses)
@@ -295,6 +298,8 @@ def check_element(tree, progkey, placement, pidx, qidx, inputs, reference,
             bad.append((inp, f"the run stops on an undefined value ({out[1]})"))
             continue
         diff = compare(want[inp], out[1])
+        for _kind, name in out[2]:
+            absent.setdefault(name, inp)
         if out[2]:
             bad.append((inp, f"array {out[2][0][1]} is not present on the device "
                              f"inside a default(present) construct"))
@@ -336,19 +341,28 @@ def check_element(tree, progkey, placement, pidx, qidx, inputs, reference,
         need = D.clause_of(needed, name)
         psy_in, psy_out = psy in ("copyin", "copy"), psy in ("copyout", "copy")
         n_in, n_out = need in ("copyin", "copy"), need in ("copyout", "copy")
-        harmful = (n_in and not psy_in) or (n_out and not psy_out) or \
-            (psy_out and not n_out and (not psy_in or name in host_written))
+        if psy == "none":
+            # no clause = the implicit whole-array copy of each construct,
+            # which is only wrong under default(present)
+            harmful = name in absent
+        else:
+            harmful = (n_in and not psy_in) or (n_out and not psy_out) or \
+                (psy_out and not n_out and (not psy_in or name in host_written))
         if harmful:
-            mech = O.mechanism(nodes, name, True)
-            where = "" if name in dev_any else ":host-only-array"
-            culprits.append((name, psy, need, f"{mech}{where}"))
+            mech = O.mechanism(nodes, name, True) if name in dev_any \
+                else "host-only-array"
+            culprits.append((name, psy, need, mech))
     if not culprits:
         raise RuntimeError(f"unexplained difference: {progkey} {placement} "
                            f"[{pidx}..{qidx}] {line} needed={needed} {bad}")
     count("element:violating")
     viol = []
-    inp, what = bad[0]
     for name, psy, need, mech in culprits:
+        inp, what = bad[0]
+        if name in absent:
+            inp = absent[name]
+            what = (f"array {name} is not present on the device inside a "
+                    f"default(present) construct")
         viol.append({
             "key": f"{progkey}|{placement}|[{pidx}..{qidx}]|{name}",
             "sig": f"{psy}-where-{need}-needed:{mech}", "group": f"{psy}->{need}",
